@@ -9,8 +9,17 @@ RUNS = [0]   # executions of the real code by this process (reported per bounded
 def crate_dir():
     d = os.path.join(WORK, 'replay_runner')
     os.makedirs(os.path.join(d, 'src'), exist_ok=True)
-    shutil.copy(os.path.join(VERIF, 'replay_runner', 'src', 'main.rs'), os.path.join(d, 'src', 'main.rs'))
-    open(os.path.join(d, 'Cargo.toml'), 'w').write(
+    def put(path, text):
+        # written only when different: an unchanged crate keeps its timestamps, so that a concurrent `cargo build` of another
+        # check is a no-op and does not replace the binary while this process runs it
+        try:
+            if open(path).read() == text:
+                return
+        except OSError:
+            pass
+        open(path, 'w').write(text)
+    put(os.path.join(d, 'src', 'main.rs'), open(os.path.join(VERIF, 'replay_runner', 'src', 'main.rs')).read())
+    put(os.path.join(d, 'Cargo.toml'),
         '[package]\nname = "replay_runner"\nversion = "0.0.0"\nedition = "2021"\n\n[dependencies]\npenne = { path = "%s" }\n\n[workspace]\n' % REPO)
     lock = os.path.join(REPO, 'Cargo.lock')
     return d
@@ -41,7 +50,18 @@ def run(mode, data, timeout=60):
     os.close(fd)
     RUNS[0] += 1
     try:
-        p = subprocess.run([exe, mode, path], capture_output=True, text=True, timeout=timeout)
+        for attempt in range(4):
+            try:
+                p = subprocess.run([exe, mode, path], capture_output=True, text=True, timeout=timeout)
+                break
+            except (FileNotFoundError, PermissionError, OSError) as e:
+                if isinstance(e, subprocess.TimeoutExpired) or attempt == 3:
+                    raise
+                # another check is relinking the runner right now: wait for its build lock, then try again
+                import time as _t
+                with unit_lock('replay_runner_build'):
+                    pass
+                _t.sleep(0.2 * (attempt + 1))
         out = p.stdout.strip().split('\n')[-1] if p.stdout.strip() else ''
         if p.returncode != 0 and not out:
             return {'status': 'crash', 'detail': 'exit %d: %s' % (p.returncode, p.stderr[-300:])}
